@@ -55,6 +55,7 @@ def verify_function(args):
                 j["reason"] = getattr(o, "reason", None)
             out["obligations"].append(j)
         out["dead"] = sorted(set(it.dead))
+        out["inlined"] = list(it.notes)
         out["status"] = "translated"
     except KeyError as ex:
         out["status"] = "out-of-reach"
@@ -181,7 +182,8 @@ def check_property(prop, tier, seed, rebaseline=False, jobs=None):
     all_ids = {}
     for r in fres:
         key = r["key"]
-        entry = {"function": key, "sha256": r["sha256"], "class": "P", "seconds": r["seconds"], "obligations": {}, "dead_branches": r.get("dead", [])}
+        entry = {"function": key, "sha256": r["sha256"], "class": "P", "seconds": r["seconds"], "obligations": {}, "dead_branches": r.get("dead", []),
+                 "inlined_callees": r.get("inlined", [])}
         if r["status"] == "engine-error":
             entry["class"] = "B(demoted)"
             entry["reason"] = r["reason"]
